@@ -48,12 +48,19 @@ Inductive recv_res :=
 
 Inductive plugin_kind := PNone | PProxy | PLocal.
 
+(* [rem] = request.buffer after the parse that completed the first request: the bytes of this very segment
+   that follow the end of the request (pipelined request, tunnel payload sent right behind a CONNECT);
+   [] when the segment ends with the request.  Since e222aa4 handle_data hands them to
+   plugin.on_client_data in the same call. *)
 Inductive req_outcome :=
 | RIncomplete
 | RError (pieces : list bytes)
-| RProxy (tunnel : bool) (rebuilt : bytes)
-| RServe (pieces : list bytes)
+| RProxy (tunnel : bool) (rebuilt : bytes) (rem : bytes)
+| RServe (pieces : list bytes) (rem : bytes)
 | RRaise.
+
+Definition req_rem (r : req_outcome) : bytes :=
+  match r with RProxy _ _ rem => rem | RServe _ rem => rem | _ => [] end.
 
 Inductive cdata_outcome :=
 | DNothing
@@ -160,12 +167,12 @@ Definition parse_first_request (c : cfg) (ev : event) (s : hstate) : hstate * op
   match req ev with
   | RIncomplete => (s, Some false)
   | RError pieces => (client_queue_all pieces (set_request true PNone false s), Some true)
-  | RProxy tunnel rebuilt =>
+  | RProxy tunnel rebuilt _ =>
       let s1 := set_request true PProxy tunnel s in
       if tunnel
       then (client_queue (ack c) (set_upstream (Some new_conn) s1), Some false)
       else (set_upstream (Some (queue rebuilt new_conn)) s1, Some false)
-  | RServe pieces => (client_queue_all pieces (set_request true PLocal false s), Some false)
+  | RServe pieces _ => (client_queue_all pieces (set_request true PLocal false s), Some false)
   | RRaise => (s, None)
   end.
 
@@ -198,9 +205,25 @@ Definition on_client_data (ev : event) (s : hstate) (raw : bytes) : hstate * opt
       end
   end.
 
-(* HttpProtocolHandler.handle_data *)
+(* HttpProtocolHandler.handle_data:
+     if request.state != COMPLETE:
+         if _parse_first_request(data): return True
+         if request.is_complete and plugin and request.buffer:        (e222aa4)
+             remainder = request.buffer; request.buffer = None; plugin.on_client_data(remainder)
+     elif plugin: plugin.on_client_data(data)
+   (HttpProtocolException from either call: queue e.response() if any, return True) *)
 Definition handle_data (c : cfg) (ev : event) (s : hstate) (data : bytes) : hstate * option bool :=
-  if negb (req_complete s) then parse_first_request c ev s
+  if negb (req_complete s) then
+    match parse_first_request c ev s with
+    | (s1, Some false) =>
+        match req_rem (req ev) with
+        | [] => (s1, Some false)
+        | rem => if req_complete s1
+                 then match plugin s1 with PNone => (s1, Some false) | _ => on_client_data ev s1 rem end
+                 else (s1, Some false)
+        end
+    | r => r
+    end
   else on_client_data ev s data.
 
 (* BaseTcpServerHandler.handle_readables, parametric in the subclass's handle_data *)
@@ -363,7 +386,10 @@ Fixpoint threaded_flush (max : N) (sel : list (option outcome)) (w : conn) : con
   else (w, Some (Flushed 0)).
 
 (* shutdown(): threaded mode flushes first; then plugin.on_client_connection_close() closes the
-   upstream, and the client socket is closed. *)
+   upstream (its own connection.shutdown(SHUT_WR) may raise OSError, which is caught, close() is in a
+   finally), then conn.shutdown(SHUT_WR) on the client socket — which raises OSError(ENOTCONN) after a
+   peer reset / broken pipe; `except OSError: pass` — and `finally` the client socket is closed.
+   So the outcome of the two shutdown(SHUT_WR) calls never changes what is closed. *)
 Definition close_upstream (s : hstate) : hstate :=
   match upstream s with Some u => set_upstream (Some (close u)) s | None => s end.
 
